@@ -382,6 +382,103 @@ type inst struct {
 	fails []string
 	// names of struct fields of the package whose declared type mentions sync/atomic
 	atomicFields map[string]bool
+	// parameters, named results and variables declared in the function: printed as `$` in action targets, and the
+	// context parameter as `ctx`, so that renaming a local is invisible in the log
+	locals  map[string]bool
+	ctxName string
+}
+
+// declared collects the names declared in a function (parameters, results, :=, var, range, function literals).
+func declared(fd *ast.FuncDecl) (map[string]bool, string) {
+	locals, ctxName := map[string]bool{}, "ctx"
+	isCtx := func(t ast.Expr) bool {
+		se, ok := t.(*ast.SelectorExpr)
+		if !ok {
+			return false
+		}
+		pk, ok := se.X.(*ast.Ident)
+		return ok && pk.Name == "context" && se.Sel.Name == "Context"
+	}
+	fields := func(fl *ast.FieldList, top bool) {
+		if fl == nil {
+			return
+		}
+		for _, f := range fl.List {
+			for _, n := range f.Names {
+				if top && isCtx(f.Type) {
+					ctxName = n.Name
+					continue
+				}
+				locals[n.Name] = true
+			}
+		}
+	}
+	fields(fd.Type.Params, true)
+	fields(fd.Type.Results, true)
+	ast.Inspect(fd.Body, func(n ast.Node) bool {
+		switch v := n.(type) {
+		case *ast.AssignStmt:
+			if v.Tok == token.DEFINE {
+				for _, l := range v.Lhs {
+					if id, ok := l.(*ast.Ident); ok {
+						locals[id.Name] = true
+					}
+				}
+			}
+		case *ast.ValueSpec:
+			for _, id := range v.Names {
+				locals[id.Name] = true
+			}
+		case *ast.RangeStmt:
+			if v.Tok == token.DEFINE {
+				if id, ok := v.Key.(*ast.Ident); ok {
+					locals[id.Name] = true
+				}
+				if id, ok := v.Value.(*ast.Ident); ok {
+					locals[id.Name] = true
+				}
+			}
+		case *ast.FuncLit:
+			fields(v.Type.Params, false)
+			fields(v.Type.Results, false)
+		}
+		return true
+	})
+	delete(locals, "_")
+	delete(locals, ctxName)
+	return locals, ctxName
+}
+
+// canon prints an action target with locals as `$` and the context parameter as `ctx`.
+func (in *inst) canon(s string) string {
+	var out strings.Builder
+	isStart := func(c byte) bool { return c == '_' || c >= 'a' && c <= 'z' || c >= 'A' && c <= 'Z' }
+	isId := func(c byte) bool { return isStart(c) || c >= '0' && c <= '9' }
+	for i := 0; i < len(s); {
+		c := s[i]
+		if isStart(c) && (i == 0 || !isId(s[i-1])) {
+			j := i
+			for j < len(s) && isId(s[j]) {
+				j++
+			}
+			id := s[i:j]
+			switch {
+			case i > 0 && s[i-1] == '.':
+				out.WriteString(id)
+			case id == in.ctxName:
+				out.WriteString("ctx")
+			case in.locals[id] && id != in.recv:
+				out.WriteString("$")
+			default:
+				out.WriteString(id)
+			}
+			i = j
+			continue
+		}
+		out.WriteByte(c)
+		i++
+	}
+	return out.String()
 }
 
 func (in *inst) src(n ast.Node) string {
@@ -416,9 +513,9 @@ func (in *inst) target(x ast.Expr) string {
 		return f
 	}
 	if in.derived(x) {
-		return strings.ReplaceAll(strings.TrimPrefix(in.src(x), in.recv+"."), " ", "") // no spaces in a log entry's site
+		return in.canon(strings.ReplaceAll(strings.TrimPrefix(in.src(x), in.recv+"."), " ", "")) // no spaces in a log entry's site
 	}
-	return in.src(x)
+	return in.canon(strings.ReplaceAll(in.src(x), " ", ""))
 }
 
 // derived: x is the result of a method of the receiver, `recv.m(args)` (e.g. s.getLock(key)); only
@@ -1149,6 +1246,7 @@ func main() {
 				name = typ + "_" + name
 			}
 			in := &inst{fset: fset, fn: name, recv: recv, snap: snapTypes[typ], obj: objTypes[typ] && recv != "", atomicFields: atomicFields}
+			in.locals, in.ctxName = declared(fd)
 			in.block(fd.Body)
 			fails = append(fails, in.fails...)
 		}
